@@ -624,6 +624,10 @@ func (l *Linter) lintReturnStatement(stmt *ast.ReturnStatement, ctx *context.Con
 		} else if t, ok := implicitCoersionTable[*ctx.ReturnType]; ok {
 			// Check if the actual type can be implicitly converted to the expected return type
 			validReturnType = expectType(cc, append(t, *ctx.ReturnType)...)
+			// only variables are converted to STRING implicitly (see lintFunctionArguments)
+			if validReturnType && *ctx.ReturnType == types.StringType && isLiteralOfNonStringType(stmt.ReturnExpression, cc, ctx) {
+				validReturnType = false
+			}
 		}
 
 		if !validReturnType {
